@@ -15,12 +15,14 @@ func Specs() map[string]*PropSpec {
 			vt("VerifC09_Mono", "n", "3"),
 			vt("VerifC09_Disjunct", "na", "2", "nb", "2"), vt("VerifC09_Disjunct", "na", "1", "nb", "2", "denoms", "2"),
 			vt("VerifC09_Conjunct", "na", "2", "nb", "2"), vt("VerifC09_Conjunct", "na", "2", "nb", "1", "denoms", "2"),
+			vt("VerifC09_AccountSplit", "nl", "2", "nv", "2"), vt("VerifC09_Clawback", "nl", "2", "nv", "2"), vt("VerifC09_Clawback", "nl", "1", "nv", "2", "denoms", "2"),
 		},
 		Thorough: []Inst{
 			vt("VerifC09_Read", "n", "5"), vt("VerifC09_Read", "n", "4", "denoms", "2"),
 			vt("VerifC09_Mono", "n", "5"), vt("VerifC09_Mono", "n", "3", "denoms", "2"),
 			vt("VerifC09_Disjunct", "na", "3", "nb", "3"), vt("VerifC09_Disjunct", "na", "2", "nb", "2", "denoms", "2"),
 			vt("VerifC09_Conjunct", "na", "3", "nb", "3"), vt("VerifC09_Conjunct", "na", "2", "nb", "2", "denoms", "2"),
+			vt("VerifC09_AccountSplit", "nl", "3", "nv", "3"), vt("VerifC09_Clawback", "nl", "3", "nv", "3"), vt("VerifC09_Clawback", "nl", "2", "nv", "2", "denoms", "2"),
 		},
 		Bounds: map[string]string{
 			"quick":    "period lists of length <= 3 (read/monotone), 2+2 (merge/cap) with 1 denom and 2+1 with 2 denoms; start in [0,2^60], each length in [0,2^56], read time in [0,2^61], each amount in [0,2^128)",
@@ -80,6 +82,20 @@ func Specs() map[string]*PropSpec {
 		Outside:     []string{"more accounts or denominations than the bound (the step is proved from an arbitrary invariant state, so longer histories over the bounded universe are covered)", "state left by a failing message (rolled back by the SDK: stated, not proved)", "queries / pagination"},
 		Assumptions: []string{"bank stub moves coins exactly as asked and refuses overdrafts", "codec / math.Int.Marshal modelled as typed blobs", "SDK prefix.Store executed for real on the in-memory store"},
 		Stubs:       []string{"c12Bank", "zzverif.MemStore"},
+	}
+	m["C08"] = &PropSpec{
+		ID: "C08", Pkgs: []string{"./x/vesting/types", "./x/staking/keeper"},
+		Quick: []Inst{vt("VerifC08_LockedCoins", "nl", "2", "nv", "2"), vt("VerifC08_LockedCoins", "nl", "1", "nv", "2", "denoms", "2"), vt("VerifC09_Clawback", "nl", "2", "nv", "2"),
+			{Pkg: "x/staking/keeper", Fn: "VerifC08_Delegate", Params: pm("nv", "2")}},
+		Thorough: []Inst{vt("VerifC08_LockedCoins", "nl", "3", "nv", "3"), vt("VerifC08_LockedCoins", "nl", "2", "nv", "2", "denoms", "2"), vt("VerifC09_Clawback", "nl", "3", "nv", "3"),
+			{Pkg: "x/staking/keeper", Fn: "VerifC08_Delegate", Params: pm("nv", "4")}},
+		Bounds: map[string]string{
+			"quick":    "LockedCoins and post-clawback locking for accounts with <= 2 lockup and <= 2 vesting periods (1-2 denoms), arbitrary tracked delegations, arbitrary block time; delegation wrapper: <= 2 vesting periods, arbitrary balance/amount/time, Delegate and CreateValidator",
+			"thorough": "<= 3 + 3 periods; delegation wrapper <= 4 vesting periods",
+		},
+		Outside: []string{"that the SDK bank keeper refuses debits beyond balance - LockedCoins on every path (SDK code; the property reduces to LockedCoins being right, which is what is decided)", "the eth-route ante pre-check and the EVM debit path (planned with the x/evm harnesses)", "delegation through grants / the staking precompile (they end in the same message server, checked here)"},
+		Assumptions: []string{"staking BondDenom stubbed to aISLM", "account/bank keepers are harness stubs returning the symbolic account and balance"},
+		Stubs:       []string{"c08AK", "c08BK", "c08Inner (records what reaches the SDK staking server)"},
 	}
 	return m
 }
